@@ -27,10 +27,15 @@
 #define EP_VALS(ep) (EP_MAXLEN_OK(ep) && (ep)->frame_size == EP_FS \
     && 0 <= (ep)->pos && (ep)->pos < EP_MAXLEN && 0 <= (ep)->n && (ep)->n <= EP_MAXLEN \
     && 0 < (ep)->start_frames && (ep)->start_frames < EP_MAXLEN && 0 < (ep)->end_frames && (ep)->end_frames < EP_MAXLEN \
-    && ((ep)->in_speech == 0 || (ep)->in_speech == 1))
+    && ((ep)->in_speech == 0 || (ep)->in_speech == 1) \
+    && 0 <= (ep)->verif_dropped && (ep)->verif_dropped <= (ep)->verif_pushed \
+    && (ep)->n == (ep)->verif_pushed - (ep)->verif_dropped)
 /* times are finite, non-negative stream positions (NaN would make every equality false) */
-#define EP_TIMES(ep) (EP_FINITE((ep)->qstart_time) && EP_FINITE((ep)->timestamp) && EP_FINITE((ep)->frame_length) && (ep)->frame_length > 0)
-#define EP_FINITE(x) ((x) >= 0.0 && (x) <= 1.0e12)
+/* ghost counters cannot wrap (2^61 frames) */
+#define EP_GHOST_OK(ep) ((ep)->verif_pushed <= 2000000000000000000L)
+#define EP_TIMES(ep) (EP_FINITE((ep)->qstart_time) && EP_FINITE((ep)->timestamp) && (ep)->frame_length > 0 && (ep)->frame_length <= 1.0 \
+    && EP_FINITE((ep)->speech_start) && EP_FINITE((ep)->speech_end))
+#define EP_FINITE(x) ((x) >= 0.0) /* not NaN; inductive under x += frame_length */
 #define EP_WITNESS_OK (0 <= verif_w && verif_w < EP_MAXLEN && 0 <= verif_k && verif_k < EP_FS)
 #define EP_FLAGS01(ep) ((ep)->is_speech[verif_w] == 0 || (ep)->is_speech[verif_w] == 1)
 #define EP_SAMPLE(ep, slot, k) ((ep)->buf[(slot) * EP_FS + (k)])
@@ -39,10 +44,10 @@
 #ifdef EP_SYMBOLIC_MAXLEN
 /* index-level groups never touch the sample buffer; a symbolic product as is_fresh size trips the contract library
  * (car_create "writable up to size" fails spuriously), so only the flag array is materialised */
-#define WF_EP_FRESH(ep) __CPROVER_is_fresh(ep, sizeof(*ep)) && EP_VALS(ep) && EP_TIMES(ep) \
+#define WF_EP_FRESH(ep) __CPROVER_is_fresh(ep, sizeof(*ep)) && EP_VALS(ep) && EP_GHOST_OK(ep) && EP_TIMES(ep) \
     && __CPROVER_is_fresh(ep->is_speech, (size_t)EP_MAXLEN) && EP_WITNESS_OK
 #else
-#define WF_EP_FRESH(ep) __CPROVER_is_fresh(ep, sizeof(*ep)) && EP_VALS(ep) && EP_TIMES(ep) \
+#define WF_EP_FRESH(ep) __CPROVER_is_fresh(ep, sizeof(*ep)) && EP_VALS(ep) && EP_GHOST_OK(ep) && EP_TIMES(ep) \
     && __CPROVER_is_fresh(ep->buf, sizeof(int16) * (size_t)EP_MAXLEN * EP_FS) && __CPROVER_is_fresh(ep->is_speech, (size_t)EP_MAXLEN) \
     && EP_WITNESS_OK
 #endif
@@ -64,7 +69,10 @@ static int ep_push(endpointer_t *ep, int is_speech, const int16 *frame)
 __CPROVER_requires(WF_EP_FRESH(ep))
 __CPROVER_requires(__CPROVER_is_fresh(frame, sizeof(int16) * EP_FS))
 __CPROVER_requires(is_speech == 0 || is_speech == 1)
-__CPROVER_assigns(ep->n, ep->pos, ep->qstart_time, __CPROVER_object_whole(ep->buf), __CPROVER_object_whole(ep->is_speech))
+__CPROVER_assigns(ep->n, ep->pos, ep->qstart_time, ep->verif_pushed, ep->verif_dropped, __CPROVER_object_whole(ep->buf), __CPROVER_object_whole(ep->is_speech))
+/* every qstart_time += frame_length goes with one dropped frame (same fold: time of the oldest queued frame) */
+__CPROVER_ensures(ep->verif_pushed == __CPROVER_old(ep->verif_pushed) + 1)
+__CPROVER_ensures(ep->verif_dropped == __CPROVER_old(ep->verif_dropped) + (__CPROVER_old(ep->n) == EP_MAXLEN ? 1 : 0))
 __CPROVER_ensures(ep->n == (__CPROVER_old(ep->n) == EP_MAXLEN ? EP_MAXLEN : __CPROVER_old(ep->n) + 1))
 __CPROVER_ensures(ep->pos == (__CPROVER_old(ep->n) == EP_MAXLEN ? EP_NEXT(__CPROVER_old(ep->pos)) : __CPROVER_old(ep->pos)))
 __CPROVER_ensures(__CPROVER_return_value == ep->n)
@@ -80,7 +88,8 @@ __CPROVER_ensures(ep->qstart_time == (__CPROVER_old(ep->n) == EP_MAXLEN ? __CPRO
 static int16 *ep_pop(endpointer_t *ep, int *out_is_speech)
 __CPROVER_requires(WF_EP_FRESH(ep))
 __CPROVER_requires(out_is_speech == NULL || __CPROVER_is_fresh(out_is_speech, sizeof(int)))
-__CPROVER_assigns(ep->n, ep->pos, ep->qstart_time; out_is_speech != NULL: *out_is_speech)
+__CPROVER_assigns(ep->n, ep->pos, ep->qstart_time, ep->verif_dropped; out_is_speech != NULL: *out_is_speech)
+__CPROVER_ensures(ep->verif_dropped == __CPROVER_old(ep->verif_dropped) + (__CPROVER_old(ep->n) > 0 ? 1 : 0))
 __CPROVER_ensures(IMP(__CPROVER_old(ep->n) == 0, __CPROVER_return_value == NULL && ep->n == 0 && ep->pos == __CPROVER_old(ep->pos)
                       && ep->qstart_time == __CPROVER_old(ep->qstart_time)))
 __CPROVER_ensures(IMP(__CPROVER_old(ep->n) > 0, __CPROVER_return_value == ep->buf + __CPROVER_old(ep->pos) * EP_FS
@@ -133,15 +142,19 @@ __CPROVER_ensures(__CPROVER_return_value == (vad == NULL ? -1 : verif_vad_rate))
 
 const int16 *endpointer_process(endpointer_t *ep, const int16 *frame)
 __CPROVER_requires(WF_EP_FRESH(ep))
-__CPROVER_requires(ep->vad != NULL)
+__CPROVER_requires(ep->vad != NULL && ep->verif_pushed <= 1000000000000000000L)
 __CPROVER_requires(IMP(ep->in_speech, ep->n < EP_MAXLEN))
 __CPROVER_requires(__CPROVER_is_fresh(frame, sizeof(int16) * EP_FS))
 __CPROVER_assigns(ep->n, ep->pos, ep->qstart_time, ep->timestamp, ep->in_speech, ep->speech_start, ep->speech_end,
+                  ep->verif_pushed, ep->verif_dropped,
                   __CPROVER_object_whole(ep->buf), __CPROVER_object_whole(ep->is_speech), verif_last_count)
-/* exactly one push per call, at most one pop */
+/* exactly one push per call (timestamp advances with it), at most one pop; a frame leaves the queue exactly once */
 __CPROVER_ensures(ep->timestamp == __CPROVER_old(ep->timestamp) + ep->frame_length)
-__CPROVER_ensures(IMP(__CPROVER_return_value == NULL, ep->n == P_N1 && ep->pos == P_POS1 && ep->qstart_time == P_Q1))
-__CPROVER_ensures(IMP(__CPROVER_return_value != NULL, ep->n == P_N1 - 1 && ep->pos == EP_NEXT(P_POS1) && ep->qstart_time == P_Q1 + ep->frame_length))
+__CPROVER_ensures(ep->verif_pushed == __CPROVER_old(ep->verif_pushed) + 1)
+__CPROVER_ensures(ep->verif_dropped == __CPROVER_old(ep->verif_dropped) + (P_FULL0 ? 1 : 0) + (__CPROVER_return_value != NULL ? 1 : 0))
+__CPROVER_ensures(ep->n == ep->verif_pushed - ep->verif_dropped)
+__CPROVER_ensures(IMP(__CPROVER_return_value == NULL, ep->n == P_N1 && ep->pos == P_POS1))
+__CPROVER_ensures(IMP(__CPROVER_return_value != NULL, ep->n == P_N1 - 1 && ep->pos == EP_NEXT(P_POS1)))
 /* the returned frame is the oldest frame of the queue */
 __CPROVER_ensures(IMP(__CPROVER_return_value != NULL, __CPROVER_return_value == ep->buf + P_POS1 * EP_FS))
 /* state machine: start only after MORE than start_frames of the window are speech, end once FEWER than end_frames are */
@@ -152,11 +165,13 @@ __CPROVER_ensures(IMP(P_IN0 && !ep->in_speech, verif_last_count < ep->end_frames
 __CPROVER_ensures(IMP(P_IN0 && ep->in_speech, verif_last_count >= ep->end_frames))
 /* a frame is returned iff we are in speech or have just left it */
 __CPROVER_ensures((__CPROVER_return_value != NULL) == (ep->in_speech || P_IN0))
-/* timestamps: start = stream time of the first returned frame (oldest queued frame when triggered),
- * end = stream time just after the last returned frame */
-__CPROVER_ensures(IMP(!P_IN0 && ep->in_speech, ep->speech_start == P_Q1))
+/* timestamps.  qstart_time is the stream time of the oldest queued frame (it advances by frame_length exactly when a
+ * frame is dropped or popped: contracts of ep_push/ep_pop).  On a start the first returned frame is that oldest frame,
+ * so after its pop qstart_time == speech_start + frame_length; on an end speech_end is the time just after the
+ * returned frame, i.e. the new qstart_time. */
+__CPROVER_ensures(IMP(!P_IN0 && ep->in_speech, ep->speech_start + ep->frame_length == ep->qstart_time))
 __CPROVER_ensures(IMP(!(!P_IN0 && ep->in_speech), ep->speech_start == __CPROVER_old(ep->speech_start)))
-__CPROVER_ensures(IMP(P_IN0 && !ep->in_speech, ep->speech_end == P_Q1 + ep->frame_length))
+__CPROVER_ensures(IMP(P_IN0 && !ep->in_speech, ep->speech_end == ep->qstart_time))
 __CPROVER_ensures(IMP(ep->in_speech, ep->n < EP_MAXLEN))
 __CPROVER_ensures(EP_VALS(ep))
 ;
